@@ -865,7 +865,7 @@ func TestBinRandom(t *testing.T) {
 	rec.SetRule(rule)
 	all := []string{"sha256", "sha256", "ripemd160", "sha3-256", "sha3-384", "sha3-512", "keccak-256", "keccak-512"}
 	g := genBinItem(all, []string{"sum", "fixed", "fixed", "fixed"}).Filter(func(it BinItem) bool { return !fixedMax0Excluded(it) })
-	rec.Check(t, "bin", ev.N(5, 280), func(rt *rapid.T) {
+	rec.Check(t, "bin", ev.N(5, 200), func(rt *rapid.T) {
 		b := BinBatch{Field: rapid.SampledFrom(curveNames).Draw(rt, "field"), Engine: "test"}
 		b.Items = rapid.SliceOfN(g, randomBatch, randomBatch).Draw(rt, "items")
 		// run the batch as parallel sub-batches (the outcome does not depend on the split)
@@ -987,7 +987,7 @@ func TestBinFixedTriangle(t *testing.T) {
 		sh := ev.Shard()
 		maxes := []int{0, 1, 2, 3}
 		for _, b := range []int{55, 64, 119, 128} {
-			maxes = append(maxes, seq(b-3, b+3)...)
+			maxes = append(maxes, seq(b-2, b+2)...)
 		}
 		for i, max := range maxes {
 			if i%8 != sh%8 {
@@ -1004,14 +1004,16 @@ func TestBinFixedTriangle(t *testing.T) {
 		}
 		for _, l := range v.boundaryLengths(2*v.block + 2) {
 			add(v, 2*v.block+2, l)
-			addMin(v, 2*v.block+2, l)
+		}
+		for _, l := range v.boundaryLengths(v.block + 2) {
+			addMin(v, v.block+2, l)
 		}
 		for _, l := range sha.boundaryLengths(194) {
 			if l%8 == sh%8 {
 				addMin(sha, 194, l)
 			}
 		}
-		rec.Extra("fixed-triangle", "sha256: declared maxima 0..3 and within 3 of 55/64/119/128 x every actual length (split over shards); sha3 variants at rate-2 / rate / rate+2 x every actual length")
+		rec.Extra("fixed-triangle", "sha256: declared maxima 0..3 and within 2 of 55/64/119/128 x every actual length (split over shards); sha3 variants at rate-2 / rate / rate+2 x every actual length")
 	}
 	items = thin(items)
 	runBatches(t, rec, packBatches("bn254", "test", items, 36), workers())
@@ -1030,6 +1032,9 @@ func TestBinFixedEmptyProbe(t *testing.T) {
 		if err != nil {
 			rec.Note("probe (not asserted): %s FixedLengthSum(0) with nothing written fails in the %s: %s", h, stage, firstLine(err))
 			rec.Discarded("probe:fixed-max0:" + h + ":fails")
+			if kf, ok := ev.OpenFinding(ID, "sha3-fixedlengthsum-empty-buffer-panic"); ok {
+				rec.KnownFinding(kf.ID, kf.What)
+			}
 		} else {
 			rec.Discarded("probe:fixed-max0:" + h + ":ok")
 		}
@@ -1121,10 +1126,11 @@ func TestBinCompiled(t *testing.T) {
 		fixedJob(e(0), "bn254", w.name, w.block+2, 0)
 	} else {
 		i := ev.Shard()
-		for _, s := range binSpecs {
-			sumJob(e(i), curveNames[i%len(curveNames)], s.name, pick(s.boundaryLengths(2*s.block+1), 6))
+		for k, s := range binSpecs {
 			i++
-			if s.fixed && (i+ev.Shard())%2 == 0 {
+			if (k+ev.Shard())%2 == 0 {
+				sumJob(e(i), curveNames[i%len(curveNames)], s.name, pick(s.boundaryLengths(2*s.block+1), 6))
+			} else if s.fixed {
 				fixedJob(e(i), curveNames[(i+3)%len(curveNames)], s.name, s.block+2+p.intn(s.block), 0)
 				fixedJob(e(i+1), "bn254", s.name, 2*s.block+2, s.block-9+p.intn(12))
 			}
